@@ -11,9 +11,10 @@ HOOKS = {
 
 NOTES = ("Technique: solver-based checking of the real code. Every claimed property is decided by Kani/CBMC harnesses that "
          "symbolically execute the compiled mmtk-core functions; bounds and everything outside them are stated per property in "
-         "DESIGN.md and in each evidence file. Exit 2 = inconclusive (never reported as held). Known findings / fixed defects: "
-         "/verif/known_findings.json (read-only at run time; 'fixed' entries suppress nothing). Repaired in /repo: b72becc "
-         "'fix: header metadata compare_exchange returns the field's previous value' (C23), abe3802 'fix: side-metadata overlap check measures each spec's range from its own start' (C25); see DESIGN.md section 6.")
+         "DESIGN.md (section 8 = as built) and in each evidence file. Exit 2 = inconclusive (never reported as held). Known findings / fixed defects: "
+         "/verif/known_findings.json (read-only at run time; 'findings' entries print KNOWN-FINDING and suppress exactly one (harness, check) pair; 'fixed' entries suppress nothing). "
+         "Open known findings: F10, F11 (C08, large-object interior-pointer search). Repaired in /repo by 'fix:' commits: b72becc (C23), abe3802 (C25), 88d4fc9 (C31), "
+         "f1311e4 (C18), 59952fd (C22), 64d8575 and 0c90b94 (C27), 79a071a (C22), 1c7db0d and 5e7e5b8 (C10); see DESIGN.md section 8.3.")
 
 COMMON_ASSUME = [
     "x86-64 Linux, 64-bit layout; dev-profile semantics under Kani (debug assertions and overflow checks on)",
@@ -45,7 +46,7 @@ PROPS["C33"] = {
     "sym": "full 64-bit region/val/num/bytes; alignment = 1<<k with k symbolic in [log MIN_ALIGNMENT, log MAX_ALIGNMENT] (0..=63 for the raw helpers); "
            "known_alignment = 1<<k in [MIN, 4096]; offset any multiple of the known alignment below 2^63; shift bits 0..=63; "
            "fill variant: region at any 4-byte step of a real 192-byte buffer",
-    "bound": "Loop-free code at full width: no bound on values. Instantiations VmA (MIN 8/MAX 8), VmB (MIN 4/MAX 64, fill 0xab), VmC (MIN 8/MAX 4096). "
+    "bound": "Loop-free code at full width: no bound on values. Instantiations VmA (MIN 8/MAX 8), VmB (MIN 4/MAX 64, fill 0xab), VmC (MIN 8/MAX 4096); thorough adds VmD (MIN 16/MAX 256). "
              "Gap filling is checked on a 192-byte buffer (gaps up to 63 bytes = every gap VmB can produce).",
     "outside": "inputs whose result would overflow usize (the property excludes them); offset >= 2^63 (its negation as isize overflows in the dev profile); other VM alignment constants",
     "assumptions": COMMON_ASSUME + ["alignment is a power of two within the VM's [MIN_ALIGNMENT, MAX_ALIGNMENT]", "region and offset are multiples of the known alignment (the function's debug assertions / meaning of known_alignment)",
@@ -136,7 +137,7 @@ PROPS["C26"] = {
             "get/set_next/prev/size/free", "get_left", "get_right", "is_coalescable", "set_uncoalescable", "IntArrayFreeList::{new, from_parent, table, table_mut}"],
     "sym": "single list (6 or 3 units, one initial run): 3 operations, each alloc(n in 1..=6) or free(any live run), then free-all and re-allocate; "
            "single 5-unit list with uncoalescable boundaries: 3 operations out of alloc(n), free(run), set_uncoalescable(first unit of a run)",
-    "bound": "Single-head lists of <= 6 units, histories of 3 operations (+ free-all epilogue); unwind 8 with unwinding assertions. After every operation the real table is walked and must tile [0,units) consistently with the harness's live-run map.",
+    "bound": "Single-head lists of <= 6 units, histories of 3 operations (+ free-all epilogue; thorough: 4 units, 4 operations); unwind 8 with unwinding assertions. After every operation the real table is walked and must tile [0,units) consistently with the harness's live-run map.",
     "outside": "child lists sharing a parent table (from_parent) and alloc_from_unit: their harness exhausts 16 GB even for 4 units / 2 operations (kept as work in progress, not claimed); longer lists/histories; RawMemoryFreeList (C27, not applicable) shares every FreeList default method checked here",
     "assumptions": COMMON_ASSUME + ["free is called on live runs only (its debug assertion)", "set_uncoalescable is applied to the first unit of a run (as Map64 does)"],
     "level_text": "Bounded symbolic execution (Kani/CBMC) of the real free-list code over every 3-operation history on single-head lists of <= 6 units (with and without uncoalescable boundaries): allocated runs disjoint and in range, size() exact, alloc fails only without a fitting free run, the table always tiles the list consistently with the live runs, free runs fully coalesce, and freeing everything restores one allocatable run.",
@@ -157,9 +158,9 @@ PROPS["C31"] = {
 PROPS["C35"] = {
     "enc": ["mi_bin", "mi_bin_from_size", "mi_wsize_from_size", "new_empty_block_lists (real table via hook)", "get_maximum_aligned_size", "align_allocation_no_fill"],
     "sym": "size 0..=MAX_BIN_SIZE (symbolic, not enumerated), alignment 2^k in the VM's range, cell address (any word-aligned), offset; a second size for monotonicity; table index",
-    "bound": "All sizes and alignments for VmA (MIN 8/MAX 8) and VmB (MIN 4/MAX 64); the 49-entry table is the real one.",
+    "bound": "All sizes and alignments for VmA (MIN 8/MAX 8) and VmB (MIN 4/MAX 64); thorough adds VmC (8/4096) and VmD (16/256); the 49-entry table is the real one.",
     "outside": "FreeListAllocator::init_block (needs a MarkSweepSpace with a page resource): the fresh-block cell list is not checked",
-    "assumptions": COMMON_ASSUME + ["padded request <= MAX_BIN_SIZE (larger requests go to the large object space)", "cells are word aligned"],
+    "assumptions": COMMON_ASSUME + ["padded request <= MAX_BIN_SIZE (larger requests go to the large object space)", "cells are aligned to max(8, MIN_ALIGNMENT): block start + i * cell size with the cell size checked to be a multiple of MIN_ALIGNMENT"],
     "level_text": "Bounded symbolic execution (Kani/CBMC) of the real size-class selection against the real table for every request size up to MAX_BIN_SIZE and every legal alignment: the bin is valid, its cell holds the worst-case padded request and the object as align_allocation places it, it is the smallest such class, bins are monotone in size, table sizes strictly increase.",
     "level_note": "init_block's free-list construction is outside the claim.",
 }
@@ -229,14 +230,20 @@ PROPS["C34"] = {
 }
 
 PROPS["C08"] = {
-    "enc": ["vo_bit::is_vo_bit_set_for_addr", "is_vo_bit_set_inner", "get_object_ref_for_vo_addr", "vo_bit::find_object_from_internal_pointer", "is_internal_ptr_from_vo_bit", "is_internal_ptr", "is_vo_addr",
-            "SideMetadataSpec::{is_mapped, load_atomic, find_prev_non_zero_value (+_fast, +_simple)}", "ObjectReference::to_object_start"],
-    "sym": "a 3-byte VO bitmap (24 words = 192 heap bytes) holding one or two non-overlapping objects with symbolic start word and size (2..=24 words), mapped/unmapped; query: any word-aligned address (is_object) / any byte address and any search limit that stays inside the window (internal pointer)",
-    "bound": "192 bytes of heap, <= 2 objects, VmA (object reference == object start); unwind 26 (+ per-loop bound 5 on the byte loop) with unwinding assertions; feature vo_bit.",
-    "outside": "the space-level dispatch (SFT_MAP.get_checked(addr).is_mmtk_object / find_object_from_internal_pointer on each space) and the LargeObjectSpace page-wise variant need live spaces; heaps larger than the window; the word-at-a-time path of the underlying search (see C22); VMs whose object reference is offset from the object start",
-    "assumptions": COMMON_ASSUME + ["E1 base hook, E2 window loads (internal-pointer harness), E3 mapped predicate: heap range and VO table both mapped or both unmapped", "the VO bitmap is consistent with the object table: a bit is set exactly at each object's reference", "objects do not overlap, are word aligned and at least two words"],
-    "level_text": "Bounded symbolic execution (Kani/CBMC) of the real VO-bit lookup kernels on a 192-byte heap window with one or two symbolic objects: a word-aligned address is reported as an object iff it is an object reference; an interior pointer resolves to the object that contains it iff that object's reference is within the search limit, and to nothing otherwise; unmapped addresses yield None without touching memory.",
-    "level_note": "Kernel-level claim (VO-bit lookups); the per-space dispatch is outside.",
+    "enc": ["vo_bit::is_vo_bit_set_for_addr", "is_vo_bit_set_inner", "get_object_ref_for_vo_addr", "vo_bit::find_object_from_internal_pointer", "is_internal_ptr_from_vo_bit", "is_internal_ptr", "is_vo_addr", "get_raw_vo_bit_word",
+            "SideMetadataSpec::{is_mapped, load_atomic, load, load_raw_word, find_prev_non_zero_value (+_fast, +_simple)}", "ObjectReference::to_object_start",
+            "<LargeObjectSpace<VmB> as SFT>::find_object_from_internal_pointer (through the verif_find_object_from_internal_pointer hook)", "Address::{align_down, saturating_sub, is_mapped}"],
+    "sym": "non-LOS: a 3-byte VO bitmap (24 words = 192 heap bytes) holding one or two non-overlapping objects with symbolic start word and size (2..=24 words), mapped/unmapped; query: any word-aligned address (is_object) / any byte address and any search limit that stays inside the window (internal pointer). "
+           "LOS: sizes of up to two page-aligned large objects (16 bytes .. 3 pages, word multiples) and the search limit (1 .. 3 pages) symbolic; object layout (7), page of the pointer (3) and its offset inside the page ({0, 8, 9, 4095}) concrete: 21 harnesses x 4 offsets",
+    "bound": "non-LOS: 192 bytes of heap, <= 2 objects, VmA (object reference == object start); unwind 26 (+ per-loop bound 5 on the byte loop). LOS: three heap pages above three empty guard pages, <= 2 large objects, VmB (reference = object start + 8), E2 window = the first VO-bit word of each page (the only one the search reads); unwind 10. Unwinding assertions on; feature vo_bit.",
+    "outside": "the space-level dispatch (SFT_MAP.get_checked(addr).is_mmtk_object / find_object_from_internal_pointer on each space); heaps larger than the windows; the word-at-a-time path of the underlying search (see C22); LOS pointer offsets other than the four listed and objects of more than three pages; "
+               "LOS objects whose reference is not in the first 512 bytes of their first page (asserted by the space when it sets the VO bit)",
+    "assumptions": COMMON_ASSUME + ["E1 base hook, E2 window loads (internal-pointer harnesses), E3 mapped predicate: heap range and VO table both mapped or both unmapped", "the VO bitmap is consistent with the object table: a bit is set exactly at each object's reference",
+                                    "objects do not overlap, are word aligned and at least two words; large objects start at page boundaries and own whole pages", "the LOS method reads no field of the space (the hook calls it on an uninitialised receiver)"],
+    "level_text": "Bounded symbolic execution (Kani/CBMC) of the real VO-bit lookup kernels on a 192-byte heap window with one or two symbolic objects: a word-aligned address is reported as an object iff it is an object reference; an interior pointer resolves to the object that contains it iff that object's reference is within the search limit, and to nothing otherwise; unmapped addresses yield None without touching memory. "
+                  "And of the real large-object page-wise search for every size of up to two large objects in a three-page heap and every search limit, over 7 layouts x 3 pointer pages x 4 pointer offsets: interior pointers within the limit resolve to their object, whatever is returned holds the pointer in its allocation, pointers outside every allocation resolve to nothing. "
+                  "The letter of the property on the two LOS boundaries (pointer below the reference; reference exactly n or more below) is checked in four further harnesses and fails on the tree as given: known findings F10, F11.",
+    "level_note": "Kernel-level claim (VO-bit lookups and the LOS page search); the per-space dispatch is outside. KNOWN-FINDING lines F10/F11 are expected on the unchanged tree.",
 }
 
 PROPS["C27"] = {
@@ -262,14 +269,16 @@ PROPS["C28"] = {
 }
 
 PROPS["C10"] = {
-    "enc": ["Allocator::alloc_with_options", "alloc_slow", "alloc_slow_inline", "out_of_memory", "reset_allocation_state", "AllocatorContext::{set_alloc_options, clear_alloc_options, get_alloc_options}",
-            "GlobalState::{is_emergency_collection, allocation_success, is_initialized}", "Options::is_stress_test_gc_enabled"],
-    "sym": "the three allocation options; the emergency / allocation-success flags left by earlier requests; per attempt: success or failure, and (at a safepoint) whether the collection blocked for was an emergency collection; up to 4 attempts",
-    "bound": "The allocator trait's retry loop on a harness allocator whose alloc_slow_once plays Space::acquire (returns memory or fails; on failure at a safepoint counts a collection); requests resolved within 4 attempts; stress testing off; unwind 6.",
-    "outside": "Space::acquire / poll / block_for_gc themselves (need a space with a page resource and a live GC trigger), handle_obvious_oom_request (GCTrigger::will_oom_on_alloc needs a plan), allow_overcommit (decided inside Space::acquire), stress-test paths, more than 4 attempts",
-    "assumptions": COMMON_ASSUME + ["AllocatorContext from the verif_new hook: zero-initialised GlobalState and GCTrigger (only atomic flags are read), Options zero except stress_factor / analysis_factor / precise_stress at their defaults", "alloc_slow_once_traced (two USDT probes around alloc_slow_once: inline asm) overridden by the plain call", "the harness allocator models Space::acquire: a failed attempt at a safepoint has blocked for one collection"],
-    "level_text": "Bounded symbolic execution (Kani/CBMC) of the real allocation retry loop for every combination of allocation options, every pre-existing emergency/success flag state and every <= 4-attempt outcome script: out_of_memory is called only if allow_oom_call, only after a collection was attempted for the request, at most once, and the request then returns null; without a safepoint a failed attempt returns null at once; the options are reset afterwards.",
-    "level_note": "Retry-loop kernel only; found F6.",
+    "enc": ["Allocator::alloc_with_options", "alloc_slow", "alloc_slow_inline", "out_of_memory", "handle_obvious_oom_request", "reset_allocation_state", "AllocatorContext::{set_alloc_options, clear_alloc_options, get_alloc_options}",
+            "GCTrigger::will_oom_on_alloc (with a harness GCTriggerPolicy)", "GlobalState::{is_emergency_collection, allocation_success, is_initialized}", "Options::is_stress_test_gc_enabled"],
+    "sym": "the three allocation options; the emergency / allocation-success flags left by earlier requests; per attempt: success or failure, and (at a safepoint) whether the collection blocked for was an emergency collection; up to 4 attempts; obvious-OOM harness: request size (any usize) and maximum heap size (0..2^30 pages) with size > maximum heap",
+    "bound": "The allocator trait's retry loop on a harness allocator whose alloc_slow_once plays Space::acquire (returns memory or fails; on failure at a safepoint counts a collection) and, in the obvious-OOM harness, first asks the real handle_obvious_oom_request as BumpAllocator::acquire_block and LargeObjectAllocator::alloc_slow_once do; requests resolved within 4 attempts; stress testing off; unwind 6.",
+    "outside": "Space::acquire / poll / block_for_gc themselves (need a space with a page resource and a live GC trigger), allow_overcommit (decided inside Space::acquire), stress-test paths, more than 4 attempts, the real allocators' own alloc_slow_once",
+    "assumptions": COMMON_ASSUME + ["AllocatorContext from the verif_new hook: zero-initialised GlobalState and GCTrigger (only atomic flags are read; the trigger's policy is a harness object installed by verif_set_trigger_policy that answers get_max_heap_size_in_pages), Options zero except stress_factor / analysis_factor / precise_stress at their defaults",
+                                    "alloc_slow_once_traced (two USDT probes around alloc_slow_once: inline asm) overridden by the plain call", "the harness allocator models Space::acquire: a failed attempt at a safepoint has blocked for one collection"],
+    "level_text": "Bounded symbolic execution (Kani/CBMC) of the real allocation retry loop for every combination of allocation options, every pre-existing emergency/success flag state and every <= 4-attempt outcome script: out_of_memory is called only if allow_oom_call, only after a collection was attempted for the request and the retry after it failed too, at most once, and the request then returns null; without a safepoint a failed attempt returns null at once; "
+                  "a request larger than the maximum heap (real handle_obvious_oom_request / will_oom_on_alloc, every size and heap size) fails immediately for every option combination: one attempt, no collection, the call-back exactly when allowed; the per-request state and the options are reset afterwards.",
+    "level_note": "Retry-loop kernel only; found F6 and F12.",
 }
 
 NOT_APPLICABLE = {}
